@@ -83,6 +83,11 @@ def js_src(e, rng=None, full=False):
         q = '"' if rng is None or rng.random() < 0.5 else "'"
         return js_string(e[1], q)
     if k == 'tpl':
+        # literal parts that a back-tick literal cannot hold as they are (backslash, back-tick, control bytes) make the
+        # whole literal a double-quoted string with escapes: the engine interpolates EVERY string literal holding "${"
+        if any(isinstance(p, (bytes, str)) and any(c in b'\\`\n\r\t' for c in b(p)) for p in e[1]):
+            raw = b''.join(b(p) if isinstance(p, (bytes, str)) else b'${' + js_src(p, rng, full) + b'}' for p in e[1])
+            return js_string(raw, '"')
         out = b'`'
         for p in e[1]:
             if isinstance(p, (bytes, str)):
